@@ -26,8 +26,12 @@ def main():
     if "-n" in args:
         i = args.index("-n"); n = int(args[i+1]); del args[i:i+2]
     d = args[0] if args else "/repo"
+    only = args[1:] or None          # optional: restrict to these test files (stable tests of other files are ignored)
     stable = set(json.load(open("/root/.vp/BASELINE.json"))["stable_pass"])
-    res = run(d, n)
+    if only:
+        mods = {f[:-3].replace("/", ".") for f in only}
+        stable = {t for t in stable if t.split("::")[0].rsplit(".", 1)[0] in mods}
+    res = run(d, n if not only else 1, only)
     bad = sorted(t for t in stable if not res.get(t, False))
     if bad and n > 1:   # re-run the failing files serially (xdist interference)
         files = sorted({"/".join(t.split("::")[0].split(".")[:-1]) + ".py" for t in bad})
